@@ -133,13 +133,14 @@ class Obligation:
 
 class ClassDecl:
     def __init__(self, name, module=None, fields=None, base=None, pyname=None,
-                 truthy=True):
+                 truthy=True, methods=None):
         self.name = name
         self.module = module
         self.pyname = pyname or name     # class name in the source
         self.fields = dict(fields or {})
         self.base = base
         self.truthy = truthy
+        self.methods = dict(methods or {})   # name -> python callable (assumed contract)
 
 
 class World:
